@@ -83,7 +83,9 @@ func streamFSCache(seed uint64, n int, cf *CoqFile) *Stats {
 		nHist = 40
 	}
 	nextContents := 1
-	for h := 0; h < nHist; h++ {
+	ran := 0
+	for h := 0; h < nHist && !budgetSpent(0.10); h++ {
+		ran++
 		npaths := r.Range(1, 4)
 		files := make([]*simFile, npaths)
 		for i := range files {
@@ -187,6 +189,7 @@ func streamFSCache(seed uint64, n int, cf *CoqFile) *Stats {
 			st.Sample(map[string]interface{}{"fscache_history": stepStrs, "edits": kinds})
 		}
 	}
+	st.Extra["histories_planned"], st.Extra["histories_run"] = nHist, ran
 	cf.AddCases("fscache", "list fs_step", "check_fscache", items)
 	st.Finish("one case = one random history of FSCache.ReadFile calls on a fresh cache with edits (content, same-length, touch, delete/recreate, unusable key, unreadable) between them; non-trivial = at least one edit happened; distinct by full history")
 	return st
